@@ -2,7 +2,7 @@
    projection of a function onto the CFG kernel (used to tie k_build to conv_func on every generated case).
    No proofs. *)
 From Coq Require Import ZArith List String Ascii Bool.
-From XV Require Import Base.Show Gen.C23_tables C23.Model.
+From XV Require Import Base.Show Gen.C23_tables C23.Model C23.ProofsPhi C23.Whole C23.ProofsWhole.
 Import ListNotations.
 Local Open Scope list_scope.
 Local Open Scope Z_scope.
@@ -79,8 +79,93 @@ Definition kernel_agrees (f : dfunc) : Z :=
        | Ok _, Err _ => 0
        end.
 
+(* ---------- conv_func vs the block-wise translation tr_prog of C23/Whole.v (the object of the whole-function
+   theorem): same bodies up to the selects the repaired cond_br appends, same terminators, same phi entries where a
+   `KSel c a b` entry of the kernel table corresponds to an appended `select c a b` (or to a = b = the entry) ---------- *)
+Definition instr_eqb (x y : iinstr) : bool := String.eqb (show (enc_instr x)) (show (enc_instr y)).
+Fixpoint instrs_eqb (a b : list iinstr) : bool :=
+  match a, b with
+  | [], [] => true
+  | x :: r, y :: s => instr_eqb x y && instrs_eqb r s
+  | _, _ => false
+  end.
+Definition inc_matches (sels : list iinstr) (t c : incoming) : bool :=
+  (snd t =? snd c) &&
+  match fst t, fst c with
+  | KO a, KO b =>
+      iopd_eqb a b ||
+      match b with      (* two different constant ops with the same value: the backend still emits a select *)
+      | IVar n => existsb (fun i => match i with
+                                    | ISelect r _ _ a' b' => (r =? n) && iopd_eqb a' a && iopd_eqb b' a
+                                    | _ => false end) sels
+      | _ => false
+      end
+  | KSel cc a b, KO o =>
+      (iopd_eqb a o && iopd_eqb b o) ||
+      match o with
+      | IVar n => existsb (fun i => match i with
+                                    | ISelect r _ c' a' b' => (r =? n) && iopd_eqb c' cc && iopd_eqb a' a && iopd_eqb b' b
+                                    | _ => false end) sels
+      | _ => false
+      end
+  | _, _ => false
+  end.
+Fixpoint incs_match (extra : nat -> list iinstr) (t c : list incoming) : bool :=
+  match t, c with
+  | [], [] => true
+  | x :: r, y :: s => inc_matches (extra (Z.to_nat (snd y))) x y && incs_match extra r s
+  | _, _ => false
+  end.
+Definition term_matches (k : kterm) (t : iterm) : bool :=
+  match k, t with
+  | KRet a, IRet _ b => iopd_eqb a b
+  | KStop, IRetVoid | KStop, IUnreachable => true
+  | KBr d _, IBr d' => d =? d'
+  | KCondBr c tb _ eb _, ICondBr c' tb' eb' => iopd_eqb c c' && (tb =? tb') && (eb =? eb')
+  | _, _ => false
+  end.
+Definition whole_agrees (f : dfunc) : Z :=
+  match conv_func f, tr_prog f with
+  | Err _, _ => 2
+  | Ok _, Err _ => 0
+  | Ok bs, Ok T =>
+      let extra := fun i => skipn (List.length (nth i (t_bodies T) [])) (i_body (nth i bs (mkIB [] [] IUnreachable))) in
+      if Nat.eqb (List.length bs) (List.length (t_k T)) &&
+         forallb (fun i =>
+            let b := nth i bs (mkIB [] [] IUnreachable) in
+            let trb := nth i (t_bodies T) [] in
+            instrs_eqb (firstn (List.length trb) (i_body b)) trb &&
+            forallb (fun x => match x with ISelect r _ _ _ _ => r <? 0 | _ => false end) (extra i) &&
+            term_matches (k_term (nth i (t_k T) kdflt)) (i_term b) &&
+            forallb (fun kp => incs_match extra (pt_get (t_pt T) (Z.of_nat i) (Z.of_nat (fst kp))) (snd (snd kp)))
+                    (combine (seq 0 (List.length (i_phis b))) (i_phis b)))
+           (seq 0 (List.length bs))
+      then 1 else 0
+  end.
+
+(* the validator ProofsWhole.lit_matchesb of C23_conv_func_validated, evaluated on every generated case *)
+Definition lit_flag (f : dfunc) : Z :=
+  match conv_func f, tr_prog f with
+  | Ok bs, Ok T => if lit_matchesb bs T then 1 else 0
+  | _, _ => 2
+  end.
+
 Definition enc_func (f : dfunc) : sx :=
   match conv_func f with
   | Err e => L [I (-1); I (err_code e)]
-  | Ok bs => L [I 0; L (map enc_block bs); I (kernel_agrees f)]
+  | Ok bs => L [I 0; L (map enc_block bs); I (kernel_agrees f); I (whole_agrees f); sB (whole_okb f); I (lit_flag f)]
   end.
+
+(* ---------- running the two machines of C23/Whole.v on concrete inputs (tie of sem_d / sem_i to LLVM's behaviour
+   through the harness's reference evaluator and the JIT) ---------- *)
+Definition enc_wout (o : wout) : sx :=
+  match o with
+  | WRet v => L [I 0; I v] | WHalt => L [I 1] | WPoison => L [I 2] | WStuck => L [I 3] | WFuel => L [I 4]
+  end.
+Definition enc_runs (f : dfunc) (inputs : list (list Z)) (fuel : nat) : sx :=
+  let e0 := fun l => combine (map fst (d_args (nth 0 f ddflt))) l in
+  let t := tr_prog f in
+  let c := conv_func f in
+  L (map (fun l => L [enc_wout (run_src f fuel 0 (e0 l));
+                      match t with Ok T => enc_wout (run_tgt T fuel 0 (e0 l)) | Err _ => L [I 5] end;
+                      match c with Ok bs => enc_wout (run_lit bs fuel 0 (e0 l)) | Err _ => L [I 5] end]) inputs).
